@@ -210,11 +210,28 @@ def find_bodystream(ctx):
     return e, pn2[0] if pn2 else None
 
 
+def once_payload_kind(ctx, ty):
+    """the one-shot variant's slot: an Option of the data type itself ("plain", an infallible one-shot) or of Result<data, _>
+    ("result"); None for any other type"""
+    from .common import option_payload_type
+    p = option_payload_type(ctx, ty)
+    if p is None:
+        return None
+    if p.startswith("std::result::Result<D"):
+        return "result"
+    if p == "D":
+        return "plain"
+    return None
+
+
+def once_variants(ctx, e):
+    return [v for v in e["variants"] if len(v["fields"]) == 1 and once_payload_kind(ctx, v["fields"][0]["ty"])]
+
+
 def once_taken(ctx, rule):
     """the one-shot variant's payload is an Option that poll takes (so a second poll yields None)"""
     e, pn = find_bodystream(ctx)
-    from .common import option_payload_type
-    once = [v for v in e["variants"] if len(v["fields"]) == 1 and (option_payload_type(ctx, v["fields"][0]["ty"]) or "").startswith("std::result::Result<D")]
+    once = once_variants(ctx, e)
     if len(once) != 1 or pn is None:
         ctx.violation(rule, rule + "|shape", "UNRECOGNISED: no one-shot variant Option<Result<D, E>> in %s" % e["path"])
         return
@@ -235,8 +252,16 @@ def once_taken(ctx, rule):
         old_vals = [ev.get("result") for ev in o.events if ev["k"] == "call" and ev.get("result") is not None and
                     (ev["callee"].get("path") or "") in ("std::option::Option::<T>::take", "std::mem::take", "std::mem::replace")]
         got = agg_get(v, "0") if is_agg(v) and v[3] == "Ready" else None
+        plain = once_payload_kind(ctx, once[0]["fields"][0]["ty"]) == "plain"
+
+        def same_item(g, ov):
+            want = ("payload", ov, "Some", "0")
+            if g == want:
+                return True
+            # an infallible one-shot stores the data itself and wraps it on the way out: Some(Ok(data))
+            return plain and is_agg(g) and g[3] == "Ok" and agg_get(g, "0") == want
         okk = got is not None and (got in old_vals or any(
-            (is_agg(got) and got[3] == "Some" and agg_get(got, "0") == ("payload", ov, "Some", "0") and o.cons.variant_of(ov) == "Some") or
+            (is_agg(got) and got[3] == "Some" and same_item(agg_get(got, "0"), ov) and o.cons.variant_of(ov) == "Some") or
             (is_agg(got) and got[3] == "None" and o.cons.variant_of(ov) == "None") for ov in old_vals))
         if okk:
             ctx.ok(rule, "one-shot body: poll returns Ready(payload.take())", where=where(takes[0]))
@@ -264,9 +289,9 @@ def body_hint_tables(ctx, r1, r3):
     kinds = {}
     for v in e["variants"]:
         ty = v["fields"][0]["ty"] if v["fields"] else ""
-        from .common import option_payload_type
-        if (option_payload_type(ctx, ty) or "").startswith("std::result::Result<D"):
+        if once_payload_kind(ctx, ty):
             kinds[v["name"]] = "once"
+            once_plain = once_payload_kind(ctx, ty) == "plain"
         elif ty.startswith(xadt):
             kinds[v["name"]] = "exactlen"
         elif ty.startswith(sadt):
@@ -290,8 +315,8 @@ def body_hint_tables(ctx, r1, r3):
         pl = ("payload", S0, var, "0")
         if k == "once":
             pv = o.cons.variant_of(pl)
-            if pv == "Some" and o.cons.variant_of(("payload", pl, "Some", "0")) == "Ok":
-                d = ("payload", ("payload", pl, "Some", "0"), "Ok", "0")
+            if pv == "Some" and (once_plain or o.cons.variant_of(("payload", pl, "Some", "0")) == "Ok"):
+                d = ("payload", pl, "Some", "0") if once_plain else ("payload", ("payload", pl, "Some", "0"), "Ok", "0")
                 rem = None
                 for ev in o.events:
                     if ev["k"] == "call" and ev["callee"].get("path") == "bytes::Buf::remaining":
